@@ -28,9 +28,7 @@ def run(ctx):
         return
     n = 60 if ctx.tier == 'quick' else 400
     specs = util.corpus(ctx.prop) + gen.gen_many(ctx.seed, n, CFG, 'c01_')
-    for i, sp in enumerate(specs):
-        if i % 3 == 0 and sp['grid']['freq'] in ('h', '30min') and 'split' not in sp['opts']:
-            sp['opts']['split'] = {'h': '3h', '30min': '2h'}[sp['grid']['freq']]
+    util.add_split(specs)
     res = C.run_impl('portfolio', specs)
     exprs, owners = [], []
     for sp, o in zip(specs, res):
@@ -45,7 +43,7 @@ def run(ctx):
         runs = []
         if o.get('solve') == 'optimal' and o.get('out'):
             runs.append(('monolithic', o['out']['dispatch']))
-        if isinstance(o.get('split'), dict) and o['split'].get('solve') == 'optimal':
+        if isinstance(o.get('split'), dict) and o['split'].get('solve') == 'optimal' and o['split'].get('out'):
             runs.append(('split', o['split']['out']['dispatch']))
         for mode, disp in runs:
             ctx.cov['impl_oracle_evaluations'] += 1
@@ -65,8 +63,8 @@ def run(ctx):
         owners.append((sp, 'monolithic'))
         ctx.sample({'spec': sp, 'mode': 'monolithic'})
         s = o.get('split')
-        if isinstance(s, dict) and 'error' in s:
-            ctx.broken('correspondence-broken', {'spec': sp, 'theorem_or_correspondence': 'setup_split_optim_problem raised', 'error': s['error']})
+        if isinstance(s, dict) and ('setup_error' in s or s.get('out_r') is None):
+            ctx.count('split_error:' + str(s.get('setup_error') or s.get('out_r_error'))[:60])
         elif isinstance(s, dict):
             # concatenated mapping with original steps and re-based indices; rows checked via the model's rows
             cat = {'c': s['c'], 'rows': [], 'cType': '', 'b': [], 'map_nodal_restr': s['map_nodal_restr']}
